@@ -36,6 +36,11 @@ type gStruct struct {
 	name      string
 	fields    []*gField
 	tableName string // TableName() result ("" = no method)
+	// a foreign_key tag: the referenced model (declared as a separate type and loaded in the same FromObjects call)
+	parent     *gStruct
+	fkCol      string // local column (`references:`)
+	fkRefCol   string // referenced column (`foreign_key:`)
+	childFirst bool   // order of the two models in the FromObjects call
 }
 
 var goPrims = []struct {
@@ -295,6 +300,30 @@ func (g *gen) genStruct(c *ctx, name string, depth int, nFields int, usedNames m
 	if depth == 0 && g.rng.Intn(5) == 0 {
 		s.tableName = "tbl_" + strings.ToLower(name)
 	}
+	if depth == 0 && g.dialect == "mysql" && g.rng.Intn(5) == 0 {
+		// a second model and a foreign key to it: the referenced table is named by that model's TableName() or snake_case type name
+		pname := []string{"Owner", "APIClient", "UserGroup"}[g.rng.Intn(3)] + name
+		par := &gStruct{name: pname}
+		idf := &gField{goName: "ID", goType: "int64", absType: "int64", colName: "id", isPk: true, opts: []string{"pk"}}
+		idf.sqlType = func(d string) string { return "BIGINT" }
+		idf.tag = "primary_key"
+		par.fields = append(par.fields, idf)
+		if g.rng.Intn(2) == 0 {
+			par.tableName = "app_" + strings.ToLower(pname) + "s"
+		}
+		ref := &gField{goName: "OwnerRefZ", goType: "int64", absType: "int64", colName: "owner_ref_z"}
+		ref.sqlType = func(d string) string { return "BIGINT" }
+		sp := func(k string) string { return keywordSpelling(g.rng.Intn(2) == 0, k) }
+		items := []string{sp("foreign_key") + ":id", "references:owner_ref_z"}
+		if g.rng.Intn(2) == 0 {
+			items[0], items[1] = items[1], items[0]
+		}
+		fkf := &gField{goName: "OwnerZ", goType: pname, absType: "struct", tag: strings.Join(items, ";")}
+		nestedTypes[fkf] = par
+		s.fields = append(s.fields, ref, fkf)
+		s.parent, s.fkCol, s.fkRefCol, s.childFirst = par, "owner_ref_z", "id", g.rng.Intn(3) != 0
+		c.count("tag_foreign_key")
+	}
 	return s
 }
 
@@ -479,8 +508,22 @@ func suiteStructGen(c *ctx) {
 				wantTable = snakeRef(s.name + "s")
 			}
 		}
-		expect := L("expect", q(wantTable), L(cols...), L(idx...), L(ren...))
-		regs = append(regs, fmt.Sprintf("\t{id: %q, cfg: %s, obj: %s, decl: %q, expect: %q},", fmt.Sprintf("st%d", i), cfg, s.goValue(), decl, expect))
+		var fks []string
+		others, extra := "nil", L()
+		if s.parent != nil {
+			pt := s.parent.tableName
+			if pt == "" {
+				pt = snakeRef(s.parent.name)
+				if plural {
+					pt = snakeRef(s.parent.name + "s")
+				}
+			}
+			fks = append(fks, L("fk", q("fk_"+pt+"_"+wantTable), q(s.fkCol), q(pt), q(s.fkRefCol)))
+			others = "[]interface{}{" + s.parent.goValue() + "}"
+			extra = L(L("childFirst", b2s(s.childFirst)), L("decl", q(s.parent.name), q(s.parent.tableName), s.parent.absFields()))
+		}
+		expect := L("expect", q(wantTable), L(cols...), L(idx...), L(ren...), L(fks...))
+		regs = append(regs, fmt.Sprintf("\t{id: %q, cfg: %s, obj: %s, decl: %q, expect: %q, others: %s, childFirst: %v, extra: %q},", fmt.Sprintf("st%d", i), cfg, s.goValue(), decl, expect, others, s.childFirst, extra))
 		c.count("dialect_" + dialect)
 		c.nontrivial(decl)
 	}
